@@ -2525,6 +2525,10 @@ class Engine(object):
         if isinstance(seq, SEncMap) and sep == '':
             self.trusted_used['model:str.join'] = self.trusted_used.get('model:str.join', 0) + 1
             return SEnc(seq.t, seq.alpha)
+        if isinstance(seq, SSeq):
+            key = 'model:str.join over an unknown list (over-approximated: any string)'
+            self.trusted_used[key] = self.trusted_used.get(key, 0) + 1
+            return SStr(z3.FreshConst(z3.StringSort(), 'joined'))
         raise Unsupported('join over a symbolic sequence (no model registered)')
 
     def str_method(self, recv, name, args, kwargs, node):
@@ -2547,6 +2551,10 @@ class Engine(object):
                 r = z3.FreshConst(z3.StringSort(), name)
                 self.assume({'strip': z3.Contains(rt, r), 'lstrip': z3.SuffixOf(r, rt), 'rstrip': z3.PrefixOf(r, rt)}[name])
                 return SStr(r)
+            if name in ('splitlines', 'split', 'rsplit') and len(at) <= 2:
+                key = 'model:str.%s (over-approximated: any list of strings)' % name
+                self.trusted_used[key] = self.trusted_used.get(key, 0) + 1
+                return PList(Seq(Str).fresh(name))
             if name in ('lower', 'upper', 'replace', 'title', 'capitalize', 'swapcase', 'casefold', 'expandtabs',
                         'translate', 'format', 'zfill', 'center', 'ljust', 'rjust'):
                 key = 'model:str.%s (over-approximated: any string)' % name
